@@ -169,7 +169,7 @@ def generate(seed, tier, cfg):
         "perf_seed": st.workload.randrange(1 << 30) if has_perf else None,
         "programs": programs,
         "schedule": sched.gen_schedule(st.schedule, nclients, nsteps, policy),
-        "knobs": {"policy": policy, "reclimit": k.choice((1000, 1500, 3000)), "profile": profile, "chunk": k.choice((0, 0, 7, 16, 512)), "musical_beat": [i for i in range(nparts) if k.random() < 0.5], "high_staff_words": [i for i in range(nparts) if k.random() < 0.25], "unnumbered_groups": k.random() < 0.4, "custom_mbeats": k.random() < 0.5, "unnumbered_measures": [i for i in range(nparts) if k.random() < 0.25]},
+        "knobs": {"policy": policy, "reclimit": k.choice((1000, 1500, 3000)), "profile": profile, "chunk": k.choice((0, 0, 7, 16, 512)), "musical_beat": [i for i in range(nparts) if k.random() < 0.5], "high_staff_words": [i for i in range(nparts) if k.random() < 0.25], "unnumbered_groups": k.random() < 0.4, "custom_mbeats": k.random() < 0.5, "unnumbered_measures": [i for i in range(nparts) if k.random() < 0.25], "empty_part_id": k.choice((None, None, None, 0, 1)), "hyphen_ids": k.random() < 0.3},
     }
 
 
@@ -288,6 +288,27 @@ def _container_consistent(res, r, k):
         res.probe("result_container_checked")
 
 
+def hyphenate_ids(asc):
+    """note ids that contain a hyphen (but not '-1'): 'p1n3' -> 'p1-n3' (ids are the caller's; exporters must cope)"""
+    import copy as _copy
+
+    asc = _copy.deepcopy(asc)
+
+    def f(i):
+        return i.replace("n", "-n", 1) if isinstance(i, str) else i
+
+    for p in asc["parts"]:
+        for n in p["notes"]:
+            n["id"] = f(n["id"])
+            for key in ("tie_next", "tie_prev", "grace_next", "grace_prev"):
+                if n.get(key):
+                    n[key] = f(n[key])
+        for coll in ("slurs", "tuplets"):
+            for x in p.get(coll, []):
+                x["start"], x["end"] = f(x["start"]), f(x["end"])
+    return asc
+
+
 class World(object):
     def __init__(self, case, res=None, simfs=None):
         import partitura.score as S
@@ -295,6 +316,8 @@ class World(object):
         self.S = S
         self.case = case
         self.asc = case["workload"]
+        if case.get("knobs", {}).get("hyphen_ids"):
+            self.asc = hyphenate_ids(self.asc)
         self.score = build.build_score(self.asc, with_pages=True)
         kn = case.get("knobs", {})
         # documented in-place settings applied before the object is shared
@@ -315,6 +338,9 @@ class World(object):
                 while g is not None:
                     g.number = None
                     g = g.parent
+        if kn.get("empty_part_id") is not None and self.score.parts:
+            # a part without an id (hand-built parts often have none)
+            self.score.parts[kn["empty_part_id"] % len(self.score.parts)].id = ""
         for i, p in enumerate(self.score.parts):
             if i in kn.get("unnumbered_measures", ()):
                 # measures without a number (the constructor default; e.g. the second half of a measure split by a repeat)
